@@ -296,7 +296,7 @@ def ncbCase : P String := do
   let b ← builderP fuel
   let probes ← listOf (do let e ← nat; let pe ← nat; let ne ← nat; pure (e, pe, ne))
   endOfLine
-  match b.build with
+  match b.build Float.isFinite with
   | none => pure "build-err"
   | some r =>
     pure (joinSp ("ok" :: probes.map fun (e, pe, ne) =>
